@@ -8,7 +8,7 @@ import mir
 from mir import short, is_place, op_local
 
 LEVEL = 'other'
-EXPLANATION = ('Decides necessary structural clauses of C05 (not panic-freedom as a whole): R5a-R5e. (R5a) every '
+EXPLANATION = ('Decides necessary structural clauses of C05 (not panic-freedom as a whole): R5a-R5f. (R5a) every '
                'Result<ConstrainedDecimal<C>,_>::unwrap/expect in product code is an infallibility belief; the sign of the checked '
                'expression is computed in the lattice of subsets of {-,0,+} (constants evaluated, + - * / neg abs max min by sign algebra, '
                'rounding weakens strict signs, edge refinement on is_zero/is_sign_* tests) and must be within C; generic wrappers '
@@ -17,7 +17,9 @@ EXPLANATION = ('Decides necessary structural clauses of C05 (not panic-freedom a
                'parse_* functions, ...) whose text is not a compile-time constant never flows into unwrap/expect. (R5c) no slice index is '
                'bounded only by the length of a different sequence. (R5d) no assertion demands exact equality of a Decimal computed on '
                'the spot. (R5e) the divisor of every Decimal division / remainder reachable from a front end is non-zero by type, by the '
-               'sign lattice, or by a dominating is_zero / sign test. Not decided: every other panic site (map look-ups, the other '
+               'sign lattice, or by a dominating is_zero / sign test. (R5f) every regex capture group that is unwrapped or indexed, '
+               'directly or behind helpers that take the group name, exists and takes part in every match of the pattern(s) that '
+               'produced the Captures (patterns rebuilt from program constants incl. format! templates). Not decided: every other panic site (map look-ups, the other '
                'asserts, other slice indices), Decimal overflow, termination.')
 TRUSTED_BASE = ['rustc nightly MIR construction and trait resolution', 'the ConstrainedDecimal type invariant (decided by C04/R4a)',
                 'sign algebra of rust_decimal +,-,*,/ in exact arithmetic; rounding never changes the sign but may reach zero']
@@ -195,8 +197,26 @@ class SignEval:
         self.memo[l] = None   # cycle guard -> Top
         defs = fn.defs.get(l, [])
         if fn.is_param(l) or not defs:
-            # nothing is known about a parameter except what the dominating sign tests say (`if is_negative(&x) { .. }`)
-            self.memo[l] = self.refine_local(l, TOP) if fn.is_param(l) else TOP
+            base = TOP
+            if fn.is_param(l) and fn.kind == 'Closure' and l >= 2 and re.search(r'Decimal', fn.ty.get(l, '') or ''):
+                # the argument of a closure handed to Option::map / and_then / Result::map ..: the payload of the receiver
+                acc = frozenset()
+                known = True
+                hs = mir.handed_to(self.prog, fn)
+                for (par, hc, ai) in hs:
+                    want = {'option': 'Some', 'result': 'Ok'}.get('option' if 'option::Option' in hc.callee else ('result' if 'result::Result' in hc.callee else ''), None)
+                    if want is None or hc.short not in ('map', 'and_then', 'map_or', 'map_or_else', 'is_some_and', 'inspect', 'filter') or not is_place(hc.args[0]) or hc.args[0]['pl']['p']:
+                        known = False
+                        break
+                    sx = payload_sign_local(self.prog, par, hc.args[0]['pl']['l'], (want,), depth + 1)
+                    if not sx:
+                        known = False
+                        break
+                    acc |= sx
+                if hs and known and acc:
+                    base = acc
+            # otherwise nothing is known about a parameter except what the dominating sign tests say (`if is_negative(&x) { .. }`)
+            self.memo[l] = self.refine_local(l, base) if fn.is_param(l) else TOP
             return self.memo[l]
         acc = frozenset()
         for (bb, idx, kind, node) in defs:
@@ -456,7 +476,7 @@ def payload_sign_local(prog, fn, l, path, depth=0, _seen=None):
                 pl = r['ops'][0]['pl']
                 more = tuple(e['dc'] for e in pl['p'] if isinstance(e, dict) and 'dc' in e)
                 if any(isinstance(e, dict) and 'f' in e and e.get('of', '') not in ('',) and not e['of'].startswith('std::option::Option')
-                       and not e['of'].startswith('std::result::Result') for e in pl['p']):
+                       and not e['of'].startswith('std::result::Result') and not e['of'].startswith('std::ops::ControlFlow') for e in pl['p']):
                     return None
                 sx = payload_sign_local(prog, fn, pl['l'], more + path, depth + 1, _seen)
                 if sx is None:
@@ -473,6 +493,29 @@ def payload_sign_local(prog, fn, l, path, depth=0, _seen=None):
                 sx = payload_sign_local(prog, fn, c.args[0]['pl']['l'], ('Ok',) + path[1:], depth + 1, _seen)
             elif c.short in ('clone', 'cloned', 'copied', 'as_ref', 'as_deref', 'into', 'from') and c.args and is_place(c.args[0]) and not c.args[0]['pl']['p']:
                 sx = payload_sign_local(prog, fn, c.args[0]['pl']['l'], path, depth + 1, _seen)
+            elif c.short == 'map' and len(c.args) == 2 and len(path) >= 2 and path[1] == 'Some' and c.args[1].get('k') == 'const' and \
+                    (str(c.args[1].get('def') or '').endswith('::Some') or str(c.args[1].get('v') or '').endswith('::Some')) and \
+                    'Option' in str(c.args[1].get('ty') or '') and is_place(c.args[0]) and not c.args[0]['pl']['p']:
+                # `res.map(Some)`: the payload is wrapped once more
+                sx = payload_sign_local(prog, fn, c.args[0]['pl']['l'], (path[0],) + path[2:], depth + 1, _seen)
+            elif c.short in ('map', 'and_then') and len(c.args) == 2 and path and path[0] in ('Ok', 'Some') and \
+                    re.search(r'^std::(option::Option|result::Result)::<', c.callee) and mir._closure_fn_of(prog, fn, c.args[1]) is not None:
+                # `res.map(|d| ..)`: the new payload is what the closure returns (its argument is the old payload, see eval_local)
+                g2 = mir._closure_fn_of(prog, fn, c.args[1])
+                if c.short == 'and_then':
+                    sx = payload_sign_local(prog, g2, 0, path, depth + 1, _seen)
+                elif len(path) > 1:
+                    sx = payload_sign_local(prog, g2, 0, path[1:], depth + 1, _seen)
+                else:
+                    sx = SignEval(prog, g2).eval_local(0, depth + 1)
+            elif c.short == 'from_residual' and path and path[0] in ('Ok', 'Some'):
+                sx = frozenset()          # `?` on the error path builds Err / None only
+            elif c.short in ('map_err', 'or_else', 'inspect_err') and path and path[0] == 'Ok' and c.args and is_place(c.args[0]) and not c.args[0]['pl']['p']:
+                sx = payload_sign_local(prog, fn, c.args[0]['pl']['l'], path, depth + 1, _seen)      # the Ok payload passes unchanged
+            elif c.short in ('ok',) and path and path[0] == 'Some' and c.args and is_place(c.args[0]) and not c.args[0]['pl']['p']:
+                sx = payload_sign_local(prog, fn, c.args[0]['pl']['l'], ('Ok',) + path[1:], depth + 1, _seen)
+            elif c.short in ('ok_or', 'ok_or_else') and path and path[0] == 'Ok' and c.args and is_place(c.args[0]) and not c.args[0]['pl']['p']:
+                sx = payload_sign_local(prog, fn, c.args[0]['pl']['l'], ('Some',) + path[1:], depth + 1, _seen)
             else:
                 sx = None
             if sx is None:
@@ -788,6 +831,12 @@ def run(prog, rep, tier='quick', config='default'):
     r5c(prog, rep)
     r5d(prog, rep)
     r5e(prog, rep, reviewed, reach=reach if config == 'default' else None, require_floor=(config != 'wasm'))
+    # ------------------------------------------------------------------ R5f (lib/props/c05_groups.py)
+    from props import c05_groups
+    n_grp = c05_groups.r5f(prog, rep, reach=reach if config == 'default' else None)
+    rep.extra['required_group_accesses'] = n_grp
+    if config == 'default' and n_grp < 20:
+        rep.violation('R5f', 'anchor-lost:group-accesses', detail='anchor lost: only %d required capture-group accesses found (36 confirmed by hand)' % n_grp)
 
 
 def r5b(prog, rep, require_floor=True):
@@ -1024,6 +1073,44 @@ def r5d(prog, rep, require_floor=True):
 
 
 
+def captured_refine(prog, g, operand, sign):
+    """a value read inside closure g through a captured variable: the sign tests that dominate the place where the closure is built
+    (in the enclosing function) hold for it — `if !is_positive(&s.balance) { return None } opt.map(|x| x / s.balance)`"""
+    owner = prog.by_crate[g.crate].get(g.parent)
+    if owner is None:
+        return sign
+    o = mir.provenance(g, operand, pass_through={'deref', 'clone', 'borrow'})
+    names = {g.upvar_names.get(u) for u in o.upvars} - {None}
+    if len(names) != 1:
+        return sign
+    nm = next(iter(names))
+    def own(fs):
+        # fields of the program's own types (the capture index, Option / tuple payload projections are not part of the path)
+        return {(of, f) for (of, f) in fs if of and not of.startswith('std::') and not of.startswith('core::')}
+    vf = own(o.fields)
+    creations = [i for i, b in owner.blocks.items() for st in b['stmts'] if st['r']['rv'] == 'agg' and st['r']['kind'] == 'closure:' + g.name]
+    if not creations:
+        return sign
+    sets = {'is_zero': {ZERO}, 'is_sign_negative': {NEG, ZERO}, 'is_sign_positive': {POS, ZERO}, 'is_negative': {NEG}, 'is_positive': {POS}}
+    out = frozenset()
+    for bb in creations:
+        ev = SignEval(prog, owner)
+        ev.set_site(bb)
+        s2 = sign
+        for (locals_, fields, pred, truth) in ev.tests:
+            if not any(owner.varnames.get(l) == nm for l in locals_):
+                continue
+            if own(fields) != vf:
+                continue
+            st = frozenset(sets[pred])
+            if truth:
+                s2 = s2 & st
+            elif pred in ('is_zero', 'is_negative', 'is_positive'):
+                s2 = s2 - st
+        out |= s2
+    return out or sign
+
+
 def r5e(prog, rep, reviewed, reach=None, require_floor=True):
     """Decimal division / remainder: `a / b` on rust_decimal::Decimal panics ("Division by zero") when b is zero. At every such
     site reachable from a front end the divisor must be non-zero by its type (a Pos / Neg constrained decimal or its inner value),
@@ -1051,6 +1138,8 @@ def r5e(prog, rep, reviewed, reach=None, require_floor=True):
             sign = ev.eval_op(c.args[1])
             if is_place(c.args[1]):
                 sign = ev.refine(c.bb, c.args[1], sign)
+            if ZERO in sign and fn.kind == 'Closure' and is_place(c.args[1]):
+                sign = captured_refine(prog, fn, c.args[1], sign)
             generic = CD_RE.search(tys[1] or '') and CD_RE.search(tys[1]).group(1) not in S
             if ZERO not in sign:
                 rep.ok('R5e', k, where=c.where(), fn=fn.name, detail='divisor has sign %s: never zero' % sname(sign), trivial=True)
